@@ -587,3 +587,79 @@ fn history_family<const N: usize>(pool: usize, rank: impl Fn([u32; N]) -> [u16; 
         }
     }
 }
+
+/// eight distinct real cards
+pub fn any_eight() -> [u32; 8] {
+    let mut w = [0u32; 8];
+    let mut i = 0;
+    while i < 8 {
+        let (c, _, _) = any_card();
+        w[i] = c;
+        let mut j = 0;
+        while j < i {
+            sym::assume(w[j] != c);
+            j += 1;
+        }
+        i += 1;
+    }
+    w
+}
+
+fn min_over_hand<const N: usize>(w: &[u32; N]) -> u16 {
+    let mut best = u16::MAX;
+    let mut m = 0usize;
+    while m < (1 << N) {
+        if m.count_ones() == 5 {
+            let v = s5::f(subset(w, m));
+            if v < best {
+                best = v;
+            }
+        }
+        m += 1;
+    }
+    best
+}
+
+/// REPEATED RANKING with the six/seven-card code REAL (only the five-card evaluator is abstract, S5 over a base of
+/// N+1 cards): two overlapping hands X = cards 0..N-1 and Y = cards 1..N are ranked in the order X, Y, X, X, Y and
+/// the value AND the reported hand of the last two calls are checked — a cache inside the six/seven-card ranking
+/// (recently-ranked memo, move-to-front slip) shows here
+macro_rules! repeat_ranking {
+    ($name:ident, $ty:ty, $n:expr, $unw:expr) => {
+        #[cfg_attr(kani, kani::proof)]
+        #[cfg_attr(kani, kani::unwind($unw))]
+        #[cfg_attr(kani, kani::stub(<ckc_rs::cards::five::Five as ckc_rs::cards::HandRanker>::hand_rank_value_and_hand, crate::s5::stub_five))]
+        pub fn $name() {
+            let c = any_eight();
+            let mut base = [0u32; $n + 1];
+            let mut x = [0u32; $n];
+            let mut y = [0u32; $n];
+            let mut i = 0;
+            while i < $n + 1 {
+                base[i] = c[i];
+                i += 1;
+            }
+            let mut i = 0;
+            while i < $n {
+                x[i] = c[i];
+                y[i] = c[i + 1];
+                i += 1;
+            }
+            s5::install(&base, true);
+            let (hx, hy) = (<$ty>::from(x), <$ty>::from(y));
+            let _ = hx.hand_rank_value_and_hand();
+            let _ = hy.hand_rank_value_and_hand();
+            let _ = hx.hand_rank_value_and_hand();
+            let (vx, handx) = hx.hand_rank_value_and_hand();
+            check!(vx == min_over_hand(&x), "fourth call (X, Y, X, X): value is X's own best value");
+            check_witness(&x, vx, handx);
+            let (vy, handy) = hy.hand_rank_value_and_hand();
+            check!(vy == min_over_hand(&y), "fifth call (.., Y): value is Y's own best value");
+            check_witness(&y, vy, handy);
+            cover!(vx != vy, "the two hands rank differently");
+            cover!(vx == vy, "the two hands share their best five");
+        }
+    };
+}
+repeat_ranking!(c03_six_repeat, Six, 6, 66);
+repeat_ranking!(c03_seven_repeat, Seven, 7, 130);
